@@ -73,6 +73,8 @@ func main() {
 		os.Exit(cmdWorker(os.Args[2:]))
 	case "replay":
 		os.Exit(cmdReplay(os.Args[2:]))
+	case "hashes":
+		os.Exit(cmdHashes(os.Args[2:]))
 	default:
 		fmt.Fprintln(os.Stderr, "unknown command", os.Args[1])
 		os.Exit(2)
@@ -218,6 +220,30 @@ func limitAddressSpace() {
 	}
 	lim := syscall.Rlimit{Cur: 24 << 30, Max: 24 << 30}
 	syscall.Setrlimit(syscall.RLIMIT_AS, &lim)
+}
+
+// ------------------------------------------------------------------ hashes (determinism self-test)
+
+// cmdHashes prints one line per run index with the hash of its full event log
+// (steps generated, failures, scheduler choices through the step records).
+func cmdHashes(args []string) int {
+	fs := flag.NewFlagSet("hashes", flag.ExitOnError)
+	prop := fs.String("prop", "", "property id")
+	seed := fs.Uint64("seed", defaultSeed, "master seed")
+	from := fs.Int("from", 0, "first run index")
+	count := fs.Int("count", 50, "number of runs")
+	fs.Parse(args)
+	debug.SetGCPercent(-1)
+	debug.SetMemoryLimit(6 << 30)
+	simrt.SetStuckHandler(func() { os.Exit(4) })
+	for k := 0; k < *count; k++ {
+		idx := *from + k
+		s := world.Mix(*seed, world.HashStr(*prop), uint64(idx))
+		tr, st := world.RunSeed(*prop, "", s, idx)
+		fmt.Printf("%d %s steps=%d decisions=%d\n", idx, traceHash(tr), len(tr.Steps), st.Decisions)
+		runtime.GC()
+	}
+	return 0
 }
 
 // ------------------------------------------------------------------ replay
